@@ -368,6 +368,47 @@ func checkCache(h *History, vs []*opView) {
 			// is at best the freshest record-less answer the upstream had given
 			// before: when even that one's lifetime is over, the entry was kept
 			// too long (C08).
+			// A SERVFAIL without records for which the upstream was not asked
+			// while the operation waited, although the upstream was healthy all
+			// along: the only genuine source is a SERVFAIL the upstream itself
+			// gave at most 1 s (+2 s granularity) before.  Without one, the
+			// answer the proxy made up for an earlier failed exchange was kept
+			// (failed exchanges are never cached, C08).
+			if len(m.An)+len(m.Ns)+len(stripOPT(m.Ar)) == 0 && len(v.q.Q) == 1 && v.outcome.Kind == "forward" && v.supported && m.Rcode() == 2 && upstreamHealthy(h, v.outcome.Forward) {
+				fetched := false
+				if u := h.Ups[v.outcome.Forward]; u != nil {
+					for _, q := range u.Queries {
+						if q.At >= v.o.SentAt-sigma && q.At <= d.at && (!q.Decoded || q.Name.Lower().Equal(v.lower) && q.Type == v.q.Q[0].Type && q.Class == v.q.Q[0].Class) {
+							fetched = true
+						}
+					}
+				}
+				genuine := false
+				for _, s := range list {
+					if s.rcode == 2 && s.reply.At < d.at && s.reply.At+upMax+time.Second+2*time.Second+sigma >= v.o.SentAt-clMax {
+						genuine = true
+					}
+				}
+				// an earlier operation on the same key that the proxy answered
+				// SERVFAIL shortly before (what was kept)
+				var earlier *opView
+				for _, w := range vs {
+					if w != v && w.outcome.Forward == v.outcome.Forward && len(w.q.Q) == 1 && w.lower.Equal(v.lower) && w.q.Q[0].Type == v.q.Q[0].Type && w.q.Q[0].Class == v.q.Q[0].Class && len(w.o.Resps) > 0 && w.o.Resps[0].At < v.o.SentAt {
+						if wm, err := refdns.Parse(w.o.Resps[0].B); err == nil && wm.Rcode() == 2 && (earlier == nil || w.o.Resps[0].At > earlier.o.Resps[0].At) {
+							earlier = w
+						}
+					}
+				}
+				// (a made-up SERVFAIL lives 1 s, +2 s granularity; an operation
+				// that waited out its own deadline - a stalled second level - was
+				// not served from anywhere)
+				if !fetched && !genuine && earlier != nil && d.at-v.o.SentAt < requestDeadline-time.Second && v.o.SentAt-earlier.o.Resps[0].At < 4*time.Second {
+					h.S.Probe("c08_servfail_unfetched_checked")
+					h.S.Fail("C08", "failure-served-from-cache", "%s: answered SERVFAIL after %v without the (healthy) upstream %s being asked; op %d on the same key had been answered SERVFAIL %v before this one was sent and the upstream itself gave no SERVFAIL for the key: the failure was kept", name, d.at-v.o.SentAt, v.outcome.Forward, earlier.o.Op.Idx, v.o.SentAt-earlier.o.Resps[0].At)
+				} else if fetched && m.Rcode() == 2 {
+					h.S.Probe("c08_servfail_fetched")
+				}
+			}
 			if len(m.An)+len(m.Ns)+len(stripOPT(m.Ar)) == 0 && len(v.q.Q) == 1 && v.outcome.Kind == "forward" && v.supported && m.Rcode() != 2 {
 				fetched := false
 				if u := h.Ups[v.outcome.Forward]; u != nil {
@@ -959,4 +1000,16 @@ func checkC17mtls(h *History, vs []*opView) {
 			h.S.Fail("C17", "mtls-bypassed", "op %d: %s listener with verify_client_cert answered a client presenting %q certificate", v.o.Op.Idx, v.srv.Proto, v.cc.ClientCert)
 		}
 	}
+}
+
+// upstreamHealthy: nothing in the plan keeps a query from reaching the
+// upstream's server or its reply from coming back (the server's own scripted
+// behaviour per question apart).
+func upstreamHealthy(h *History, tag string) bool {
+	rp := h.RP
+	n := rp.Net
+	if n.UpDrop > 0 || n.UpCorrupt > 0 || n.UpDup > 0 || len(n.Partitions) > 0 || n.Connect[tag] != "" {
+		return false
+	}
+	return !limiterOn(rp) && rp.CloseAtUs == 0
 }
